@@ -40,6 +40,12 @@ def run(ctx: Ctx) -> None:
     check_prepare_reschedule(ctx, "R-C04-STEP")  # N+1 executions *per scheduling*: a new scheduling starts with a fresh counter
     message_retry(ctx)
     check_route(ctx, "R-C04-ROUTE", ops=("requeue",))
+    from .C05 import rounding
+    from .delay import whole_duration_rule
+
+    with ctx.as_rule("R-C04-ROUTE"):
+        rounding(ctx, "R-C04-ROUTE")  # the back-off is not shortened by how the due time is converted for the broker (never earlier than failure + policy(k))
+        whole_duration_rule(ctx, "R-C04-ROUTE")
 
 
 def message_retry(ctx: Ctx) -> None:
